@@ -35,13 +35,29 @@ def main():
         except Exception:
             ctx.broken.append({'kind': 'correspondence', 'name': 'harness-exception', 'detail': traceback.format_exc()[-2000:]})
         return ctx
-    ctx = one_run()
+    def aborted(c):
+        return any(b['name'] in ('harness', 'harness-exception') for b in c.broken)
+
+    def complete_run(notes):
+        # A run that ended in an exception of the harness itself (a port taken by another process, a helper process that died) has not looked at all its
+        # cases: its result is not a result.  It is repeated (same seed); only when it aborts three times in a row is the abort itself what the check reports.
+        c = one_run()
+        for _ in range(2):
+            if not aborted(c):
+                break
+            notes.append('a run aborted in the harness and was repeated: %s' % '; '.join(b['detail'][-300:] for b in c.broken if b['name'] in ('harness', 'harness-exception'))[:800])
+            print('  a run aborted in the harness and is repeated')
+            c = one_run()
+        return c
+    pre_notes = []
+    ctx = complete_run(pre_notes)
+    ctx.notes += pre_notes
     # Every case is generated from the seed, so a real violation shows again when the check is run again.  What the real command line
     # does over TCP on a loaded machine (a probe timing out, a build step hit by another process) does not.  An alarm is therefore only
     # raised for what a second, identical run shows as well; what did not repeat is recorded in the evidence, not reported.
     alarms = [v for v in ctx.violations if common.known_status(a.prop, v['key']) != 'known']
     if (alarms or ctx.broken) and os.environ.get('VERIF_NO_CONFIRM') != '1':
-        ctx2 = one_run()
+        ctx2 = complete_run(ctx.notes)
         keys2 = {v['key'] for v in ctx2.violations}
         broken2 = {(b['kind'], b['name']) for b in ctx2.broken}
         dropped = sorted({v['key'] for v in alarms if v['key'] not in keys2}) + sorted({'%s:%s' % (b['kind'], b['name']) for b in ctx.broken if (b['kind'], b['name']) not in broken2})
